@@ -63,8 +63,9 @@ func (a Any) ReferenceOrigins(ctx context.Context) reference.Origins {
 			Elems: make([]schema.Constraint, len(elemTypes)),
 		}
 		for i, elemType := range elemTypes {
-			cons.Elems[i] = schema.LiteralType{
-				Type: elemType,
+			// any element may be (or contain) a reference
+			cons.Elems[i] = schema.AnyExpression{
+				OfType: elemType,
 			}
 		}
 
@@ -105,7 +106,7 @@ func (a Any) ReferenceOrigins(ctx context.Context) reference.Origins {
 			expr:    a.expr,
 			pathCtx: a.pathCtx,
 			cons: schema.Object{
-				Attributes:            ctyObjectToObjectAttributes(typ),
+				Attributes:            ctyObjectToAnyExprObjectAttributes(typ),
 				AllowInterpolatedKeys: true,
 			},
 		}
@@ -183,4 +184,27 @@ func (a Any) refOriginsForNonComplexExpr(ctx context.Context) reference.Origins 
 		}
 	}
 	return origins
+}
+
+// ctyObjectToAnyExprObjectAttributes is like ctyObjectToObjectAttributes but
+// any attribute may be (or contain) a reference, rather than just a literal
+func ctyObjectToAnyExprObjectAttributes(objType cty.Type) schema.ObjectAttributes {
+	attrTypes := objType.AttributeTypes()
+	objAttributes := make(schema.ObjectAttributes, len(attrTypes))
+
+	for name, attrType := range attrTypes {
+		aSchema := &schema.AttributeSchema{
+			Constraint: schema.AnyExpression{
+				OfType: attrType,
+			},
+		}
+		if objType.AttributeOptional(name) {
+			aSchema.IsOptional = true
+		} else {
+			aSchema.IsRequired = true
+		}
+		objAttributes[name] = aSchema
+	}
+
+	return objAttributes
 }
